@@ -186,7 +186,8 @@ def assumptions(prop):
     missing = [t for t in theorems if t not in res]
     # every proof in Props must be `exact <lemma>.`
     proofs = re.findall(r'Proof\.(.*?)Qed\.', src_nc, re.S)
-    nonexact = [p.strip() for p in proofs if not re.fullmatch(r'\s*exact\s+[^.]+\.\s*', p)]
+    # exactly one sentence, and it is `exact <term>.` (a dot inside a qualified name such as List.length is not a sentence end: that needs white space after it)
+    nonexact = [p.strip() for p in proofs if not re.fullmatch(r'\s*exact\s+(?:[^.]|\.(?=\S))+\.\s*', p)]
     return dict(theorems=theorems, assumptions=res, missing=missing, nonexact=nonexact), ''
 
 
